@@ -86,8 +86,7 @@ def build(ctx):
             g = msggen.MG(sch, msg, G); g.const_views = True
             sa, cnt, probes = static_asserts(g)
             tags, lines, capn = msggen.visit_model(g)
-            cpp = g.cpp_prelude() + sa + g.cpp_getset(setters=False) + g.cpp_geom(mutators=False, sizes=True) + g.cpp_cursor() + msggen.cpp_visit(g, tags).replace("W int64_t visitc_", "W int64_t visitc_DISABLED_") \
-                if False else g.cpp_prelude() + sa + g.cpp_getset(setters=False) + g.cpp_geom(mutators=False, sizes=True)
+            cpp = g.cpp_prelude() + sa + g.cpp_getset(setters=False) + g.cpp_geom(mutators=False, sizes=True) + g.cpp_cursor()
             cpp = cpp.replace("sbepp::cursor<char> c;", "sbepp::cursor<const char> c;")
             u = ctx.try_lower("c11_%s_%s" % (sch.ns, msg.name), cpp, std=std, mode="checked", incs=[inc])
             if "error" in u:
@@ -116,12 +115,12 @@ def build(ctx):
             N = g.max_size(0, D) + 1
             dynamic = bool(msg.groups or msg.data)
             for lv in g.levels:
-                arms = c02.leaf_arms(g, lv, sch) + c02.dyn_arms(g, lv)
-                if not arms: continue
-                groups = [[a] for a in arms] if dynamic else [arms[j:j + 8] for j in range(0, len(arms), 8)]
-                for k, chunk in enumerate(groups):
-                    nm = chunk[0][0] if dynamic else str(k)
-                    hs.append(P.Harness("%s_%s_%s_%s_cxx%s" % (sch.ns, msg.name, lv.name, nm, std), c02.harness(u, g, chunk, N, 0, D), [u], unwind=G + 2,
+                for kind, arms, mk in (("get", c02.leaf_arms(g, lv, sch) + c02.dyn_arms(g, lv), c02.harness), ("cursor", c04.arms_for(g, lv, True), c04.harness)):
+                  if not arms: continue
+                  groups = [[a] for a in arms] if dynamic else [arms[j:j + 8] for j in range(0, len(arms), 8)]
+                  for k, chunk in enumerate(groups):
+                    nm = kind + "_" + (chunk[0][0] if dynamic else str(k))
+                    hs.append(P.Harness("%s_%s_%s_%s_cxx%s" % (sch.ns, msg.name, lv.name, nm, std), mk(u, g, chunk, N, 0, D), [u], unwind=G + 2,
                                         cap=ctx.q(300, 900), backends=["minisat", "kissat"], extra_flags=["--no-standard-checks"],
                                         meta={"big_loops": ["ref_walk_%s.%d" % (msg.name, x) for x in range(16)]},
                                         desc="const view of %s.%s level %s: getters %s return the reference values and leave every byte unchanged" % (sch.ns, msg.name, lv.name, [a[0] for a in chunk]),
